@@ -41,7 +41,7 @@ func miniDay(s *engSession, rng *Rng) {
 }
 
 func runC15(o *Out, rng *Rng, tier string, replay string) {
-	o.sum.Rule = "case = (a) a sequence of SetParams calls on one engine sweeping each documented limit at and around its boundary - flights per trip 0,1,49,50,51,huge; flight interval against trip length incl. zero and negative; all 256 thread bytes; algorithms 0..3 with every option bit; predictor windows 0,1,2,3; degrees 0..6; zero/negative/huge Daily Total - where every rejection must leave parameters and predictor unchanged (administrator hash) and every result code must equal the model's validity test; (b) for accepted sets - always including zero, negative, huge and tiny Daily Totals under the linear predictor and the polynomial predictor of every degree - a scripted five-day life (check-ins, proposals, promise-making, updates) under a wall-clock timeout and panic recovery, compared step by step with the model; non-trivial = a rejected and an accepted set / a mini-life that made a promise; distinct by script hash"
+	o.sum.Rule = "case = (a) a sequence of SetParams calls on one engine sweeping each documented limit at and around its boundary - flights per trip 0,1,49,50,51,huge; flight interval against trip length incl. zero and negative; all 256 thread bytes; algorithms 0..3 with every option bit; predictor windows 0,1,2,3; degrees 0..6; zero/negative/huge Daily Total - where every rejection must leave parameters and predictor unchanged (administrator hash) and every result code must equal the model's validity test; (b) for accepted sets - always including zero, negative, huge and tiny Daily Totals under the linear predictor and the polynomial predictor of every degree - a scripted five-day life (check-ins, proposals, promise-making, updates) under a wall-clock timeout and panic recovery, compared step by step with the model; predictor windows up to 2^32-1 points and smoothing windows up to 2^62 days among the accepted sets; (c) whole traveller-bot histories under every combination of the correction option bits, under a time-out; non-trivial = a rejected and an accepted set / a mini-life that made a promise; distinct by script hash"
 	wd := filepath.Join(o.dir, "dbs")
 	nSweeps, nLives := 4, 40
 	if tier == "thorough" {
@@ -80,6 +80,19 @@ func runC15(o *Out, rng *Rng, tier string, replay string) {
 		p.DailyTotal = flap.Kilometres(dt)
 		p.Promises.Algo = flap.PromisesAlgo(1 + rng.Intn(2))
 		candidates = append(candidates, p)
+	}
+	// predictor and smoothing windows as large as their types allow
+	var hugeWindows []flap.FlapParams
+	for _, a := range []byte{1, 2} {
+		for _, mp := range []uint32{1<<31 - 1, 1 << 31, 1<<32 - 1} {
+			p := base
+			p.Promises.Algo = flap.PromisesAlgo(a)
+			p.Promises.MaxPoints = mp
+			p.Promises.SmoothWindow = flap.Days([]int64{0, 1 << 31, 1<<62 + 5}[rng.Intn(3)])
+			p.Promises.CorrectionSmoothWindow = flap.Days([]int64{1, 1<<32 + 3}[rng.Intn(2)])
+			candidates = append(candidates, p)
+			hugeWindows = append(hugeWindows, p)
+		}
 	}
 	// (a) sweeps on one engine
 	for k := 0; k < nSweeps; k++ {
@@ -146,6 +159,7 @@ func runC15(o *Out, rng *Rng, tier string, replay string) {
 			special = append(special, p)
 		}
 	}
+	special = append(special, hugeWindows...)
 	for k := 0; k < nLives+len(special); k++ {
 		r := rng.Fork()
 		p := okSets[r.Intn(len(okSets))]
@@ -193,6 +207,44 @@ func runC15(o *Out, rng *Rng, tier string, replay string) {
 		o.Count(fmt.Sprintf("life_algo_%d", p.Promises.Algo&0x0f))
 		o.AddCase(List(s.coq), s.stat["makes_ok"] > 0, s.ops)
 		s.close()
+	}
+	// (c) whole traveller-bot histories (kept promises used while in debt, so that the promise correction
+	// runs on non-zero accumulators) under every combination of the correction option bits, under a time-out
+	nProto := 6
+	if tier == "thorough" {
+		nProto = 48
+	} else if tier == "search" {
+		nProto = 16
+	}
+	for k := 0; k < nProto; k++ {
+		r := rng.Fork()
+		bits := []int{0x20, 0x60, 0x30, 0x70, 0x10, 0x40, 0x50, 0x00}[k%8]
+		type outc struct {
+			s   *engSession
+			msg string
+		}
+		done := make(chan outc, 1)
+		go func() {
+			defer func() {
+				if x := recover(); x != nil {
+					done <- outc{nil, fmt.Sprintf("panic: %v", x)}
+				}
+			}()
+			done <- outc{genProtocol(r, wd, false, "all", bits), ""}
+		}()
+		select {
+		case oc := <-done:
+			if oc.msg != "" {
+				o.Fail(MonitorFailure{Property: "C15", Signature: "accepted-parameters-crash", What: fmt.Sprintf("traveller-bot history with promises option bits %#x: %s", bits, oc.msg), Replay: map[string]interface{}{"stream": "protocol", "index": k, "option_bits": bits}})
+				continue
+			}
+			keepFails(o, oc.s, "C15")
+			o.Count(fmt.Sprintf("protocol_life_option_bits_%#x", bits))
+			o.AddCase(List(oc.s.coq), oc.s.stat["c20_checkins_accepted"] > 3, oc.s.ops)
+			oc.s.close()
+		case <-time.After(90 * time.Second):
+			o.Fail(MonitorFailure{Property: "C15", Signature: "accepted-parameters-hang", What: fmt.Sprintf("a traveller-bot history (daily updates, proposals, check-ins on kept promises) with promises option bits %#x did not finish within 90 s", bits), Replay: map[string]interface{}{"stream": "protocol", "index": k, "option_bits": bits}})
+		}
 	}
 	engFlush(o, "C15")
 }
